@@ -511,6 +511,11 @@ def _endpoint_from_socksport_line(reactor, socks_config):
     else:
         host = '127.0.0.1'
         port = int(socks_config)
+    if port == 0:
+        # "SocksPort 0" is how Tor is told to open no SOCKS listener
+        raise ValueError(
+            "SOCKSPort 0 means 'no SOCKS listener'; nothing to connect to"
+        )
     return TCP4ClientEndpoint(reactor, host, port)
 
 
